@@ -3,7 +3,7 @@
    any depth, a trailing const) the parser reads back, from the tokens the declaration stands for, exactly that
    declaration and leaves what follows untouched. *)
 From Coq Require Import List NArith ZArith Bool Arith String Lia.
-From Shroud Require Import Base.Ustr Model.Splicer Model.Lexer Model.Expr Model.Decl Model.Render Proof.Splicer Proof.Render.
+From Shroud Require Import Base.Ustr Model.Splicer Model.Lexer Model.Expr Model.Decl Model.Render Proof.Splicer Proof.Render Proof.ExprRT Proof.ExprLex.
 Import ListNotations.
 
 (* ---- the tokens a declaration of the fragment stands for ---- *)
@@ -45,16 +45,21 @@ Definition spec_len (spec : list ustr) : nat :=
 Fixpoint join_toks (l : list (list tok)) : list tok :=
   match l with [] => [] | [x] => x | x :: r => x ++ tok_of COMMA "," :: join_toks r end.
 
+Definition lb_tok : tok := {| tk := LBRACKET; tv := [91%N] |}.
+Definition rb_tok : tok := {| tk := RBRACKET; tv := [93%N] |}.
+Definition arr_toks (arr : list expr) : list tok := flat_map (fun e => lb_tok :: etoks e ++ [rb_tok]) arr.
+
 Fixpoint decl_toks (d : decl) : list tok :=
-  let '(Decl spec _ c v _ dt params _ _ _ _ fconst) := d in
+  let '(Decl spec _ c v _ dt params arr _ _ _ fconst) := d in
   (if c then [tok_of TYPE_QUALIFIER "const"] else []) ++ (if v then [tok_of TYPE_QUALIFIER "volatile"] else []) ++
   type_toks spec ++
   (match dt with Some x => dtor_toks x | None => [] end) ++
-  match params with
-  | None => []
-  | Some ps => tok_of LPAREN "(" :: (match ps with [] => [spec_tok (cp "void")] | _ => join_toks (map decl_toks ps) end)
-               ++ tok_of RPAREN ")" :: (if fconst then [tok_of TYPE_QUALIFIER "const"] else [])
-  end.
+  (match params with
+   | None => []
+   | Some ps => tok_of LPAREN "(" :: (match ps with [] => [spec_tok (cp "void")] | _ => join_toks (map decl_toks ps) end)
+                ++ tok_of RPAREN ")" :: (if fconst then [tok_of TYPE_QUALIFIER "const"] else [])
+   end) ++
+  arr_toks arr.
 
 (* ---- the fragment, as a boolean predicate ---- *)
 Definition wf_ptrb (p : ptr) : bool := ueqb (p_ptr p) (cp "*") || ueqb (p_ptr p) (cp "&").
@@ -110,7 +115,7 @@ Fixpoint in_fragment (c : pctx) (d : decl) : bool :=
   let '(Decl spec storage cst vol tm dt params arr attrs init targs fconst) := d in
   match spec with [] => false | _ => true end &&
   match storage with [] => true | _ => false end &&
-  match arr with [] => true | _ => false end &&
+  forallb canon arr &&
   match attrs with [] => true | _ => false end &&
   match init with AVNone => true | _ => false end &&
   match targs with [] => true | _ => false end &&
@@ -128,13 +133,19 @@ Fixpoint in_fragment (c : pctx) (d : decl) : bool :=
   end.
 
 Fixpoint dsize (d : decl) : nat :=
-  let '(Decl spec _ _ _ _ dt params _ _ _ _ _) := d in
-  4 + spec_len spec + (match dt with Some x => depth x | None => 0 end) +
+  let '(Decl spec _ _ _ _ dt params arr _ _ _ _) := d in
+  4 + spec_len spec + (match dt with Some x => depth x | None => 0 end) + List.length arr +
   match params with None => 0 | Some ps => 4 + list_sum (map (fun p => S (dsize p)) ps) end.
 
 (* what may follow a declaration: the end, a comma, a closing parenthesis or a semicolon *)
 Definition ends_decl (rest : list tok) : Prop :=
   match rest with [] => True | t :: _ => tk t = COMMA \/ tk t = RPAREN \/ tk t = SEMICOLON end.
+
+(* ... or, before the array suffixes have been read, an opening bracket *)
+Definition mid (rest : list tok) : Prop :=
+  match rest with [] => True | t :: _ => tk t = COMMA \/ tk t = RPAREN \/ tk t = SEMICOLON \/ tk t = LBRACKET end.
+Lemma ends_mid rest : ends_decl rest -> mid rest.
+Proof. destruct rest as [|t r]; [auto|]. cbn. tauto. Qed.
 
 (* ---- specifier run followed by something that is not a type name ---- *)
 Definition ends_spec_in (c : pctx) (rest : list tok) : Prop :=
@@ -239,14 +250,15 @@ Qed.
 
 (* ---- consequences of [ends_decl] ---- *)
 Ltac ends_tac H := destruct H as [H | [H | H]]; rewrite H.
+Ltac mid_tac H := destruct H as [H | [H | [H | H]]]; rewrite H.
 
-Lemma ends_decl_stops rest : ends_decl rest -> stops rest.
-Proof. destruct rest as [|t r]; [exact (fun _ => I)|]. intros H. cbn [stops]. ends_tac H; repeat split; discriminate. Qed.
+Lemma ends_decl_stops rest : mid rest -> stops rest.
+Proof. destruct rest as [|t r]; [exact (fun _ => I)|]. intros H. cbn [stops]. mid_tac H; repeat split; discriminate. Qed.
 
-Lemma ends_decl_spec c rest : ends_decl rest -> ends_spec_in c rest.
+Lemma ends_decl_spec c rest : mid rest -> ends_spec_in c rest.
 Proof.
   destruct rest as [|t r]; [exact (fun _ => I)|]. intros H. cbn [ends_spec_in]. unfold is_spec_tok.
-  ends_tac H; split; try reflexivity; intros; discriminate.
+  mid_tac H; split; try reflexivity; intros; discriminate.
 Qed.
 
 Lemma wf_ptrb_ok p : wf_ptrb p = true -> wf_ptr p.
@@ -265,7 +277,7 @@ Proof.
 Qed.
 
 (* the first token of a declarator's tokens, when it is an identifier, is the declared name *)
-Lemma dtor_first_in c d rest : wf_dtorb c d = true -> ends_decl rest \/ (exists r, rest = tok_of LPAREN "(" :: r) ->
+Lemma dtor_first_in c d rest : wf_dtorb c d = true -> mid rest \/ (exists r, rest = tok_of LPAREN "(" :: r) ->
   ends_spec_in c (dtor_toks d ++ rest).
 Proof.
   destruct d as [ps name func]. intros H Hr. cbn [wf_dtorb] in H. apply andb_true_iff in H. destruct H as [Hp H].
@@ -282,13 +294,13 @@ Qed.
 Definition after_spec (rest : list tok) : Prop :=
   match rest with
   | [] => True
-  | t :: _ => match tk t with STAR | REF | ID | LPAREN | COMMA | RPAREN | SEMICOLON => True | _ => False end
+  | t :: _ => match tk t with STAR | REF | ID | LPAREN | COMMA | RPAREN | SEMICOLON | LBRACKET => True | _ => False end
   end.
 
-Lemma ends_decl_after rest : ends_decl rest -> after_spec rest.
-Proof. destruct rest as [|t r]; [exact (fun _ => I)|]. intros H. cbn [after_spec]. ends_tac H; exact I. Qed.
+Lemma ends_decl_after rest : mid rest -> after_spec rest.
+Proof. destruct rest as [|t r]; [exact (fun _ => I)|]. intros H. cbn [after_spec]. mid_tac H; exact I. Qed.
 
-Lemma dtor_first_kind c d rest : wf_dtorb c d = true -> ends_decl rest \/ (exists r, rest = tok_of LPAREN "(" :: r) ->
+Lemma dtor_first_kind c d rest : wf_dtorb c d = true -> mid rest \/ (exists r, rest = tok_of LPAREN "(" :: r) ->
   after_spec (dtor_toks d ++ rest).
 Proof.
   destruct d as [ps name func]. intros H Hr. cbn [wf_dtorb] in H. apply andb_true_iff in H. destruct H as [Hp H].
@@ -364,7 +376,7 @@ Definition par_toks (params : option (list decl)) (fconst : bool) : list tok :=
   end.
 
 Lemma decl_toks_eq spec st c v tm dt params arr at_ init ta fc :
-  decl_toks (Decl spec st c v tm dt params arr at_ init ta fc) = head_toks c v spec ++ dt_toks dt ++ par_toks params fc.
+  decl_toks (Decl spec st c v tm dt params arr at_ init ta fc) = head_toks c v spec ++ dt_toks dt ++ par_toks params fc ++ arr_toks arr.
 Proof. cbn [decl_toks]. unfold head_toks, dt_toks, par_toks. rewrite <- !app_assoc. reflexivity. Qed.
 
 Lemma decl_toks_first c d : in_fragment c d = true -> exists t r, decl_toks d = t :: r /\ starts_decl t = true.
@@ -381,7 +393,7 @@ Definition psum (ps : list decl) : nat := list_sum (map (fun p => S (dsize p)) p
 
 Lemma in_fragment_fields c spec st cst vol tm dt params arr at_ init ta fc :
   in_fragment c (Decl spec st cst vol tm dt params arr at_ init ta fc) = true ->
-  spec <> [] /\ st = [] /\ arr = [] /\ at_ = [] /\ init = AVNone /\ ta = [] /\
+  spec <> [] /\ st = [] /\ forallb canon arr = true /\ at_ = [] /\ init = AVNone /\ ta = [] /\
   spec_okb c spec tm = true /\
   match dt with Some x => wf_dtorb c x = true | None => True end /\
   match params with
@@ -395,7 +407,7 @@ Proof.
   repeat split.
   - destruct spec; [discriminate | discriminate].
   - destruct st; [reflexivity | discriminate].
-  - destruct arr; [reflexivity | discriminate].
+  - assumption.
   - destruct at_; [reflexivity | discriminate].
   - destruct init; try discriminate; reflexivity.
   - destruct ta; [reflexivity | discriminate].
@@ -471,6 +483,23 @@ Proof.
   change (ueqb (cp "void") (cp "void")) with true. rewrite H. reflexivity.
 Qed.
 
+(* array suffixes: each extent is an expression in the printer's canonical form *)
+Lemma arrays_rt : forall arr acc rest f, forallb canon arr = true -> List.length arr < f -> peek LBRACKET rest = false ->
+  p_arrays f acc (arr_toks arr ++ rest) = Ok (acc ++ arr, rest).
+Proof.
+  induction arr as [|e arr IH]; intros acc rest f Hc Hf Hp.
+  - destruct f as [|f']; [cbn in Hf; lia|]. cbn [arr_toks flat_map app p_arrays]. rewrite Hp, app_nil_r. reflexivity.
+  - destruct f as [|f']; [cbn in Hf; lia|]. cbn [forallb] in Hc. apply andb_true_iff in Hc. destruct Hc as [He Hc].
+    cbn [arr_toks flat_map]. fold (arr_toks arr). rewrite <- !app_assoc. cbn [app p_arrays peek lb_tok tk kind_eqb tl].
+    rewrite <- app_assoc. cbn [app].
+    rewrite (parse_expression_roundtrip e (rb_tok :: arr_toks arr ++ rest) He); [| cbn; split; [discriminate | exact I]].
+    cbn [bind fst snd mustbe rb_tok tk kind_eqb]. cbn [List.length] in Hf.
+    rewrite (IH (acc ++ [e]) rest f' Hc ltac:(lia) Hp). rewrite <- app_assoc. reflexivity.
+Qed.
+
+Lemma mid_arr arr rest : ends_decl rest -> mid (arr_toks arr ++ rest).
+Proof. destruct arr as [|e arr]; [cbn [arr_toks flat_map app]; apply ends_mid | intros _; cbn; tauto]. Qed.
+
 Lemma roundtrip_both : forall fuel c,
   (forall d rest, dsize d < fuel -> in_fragment c d = true -> ends_decl rest ->
      p_declaration fuel c (decl_toks d ++ rest) = Ok (d, rest)) /\
@@ -482,43 +511,45 @@ Proof.
   - (* a declaration *)
     intros d rest Hsz Hfr Hend.
     destruct d as [spec st cst vol tm dt params arr at_ init ta fc].
-    destruct (in_fragment_fields _ _ _ _ _ _ _ _ _ _ _ _ _ Hfr) as (Hs & -> & -> & -> & -> & -> & Hok & Hdt & Hpar).
+    destruct (in_fragment_fields _ _ _ _ _ _ _ _ _ _ _ _ _ Hfr) as (Hs & -> & Harr & -> & -> & -> & Hok & Hdt & Hpar).
     rewrite decl_toks_eq. cbn [dsize] in Hsz. rewrite <- !app_assoc.
+    pose proof (mid_arr arr rest Hend) as Hmid. set (rest2 := arr_toks arr ++ rest) in *.
     cbn [p_declaration].
-    assert (HR : ends_spec_in c (dt_toks dt ++ par_toks params fc ++ rest)).
+    assert (HR : ends_spec_in c (dt_toks dt ++ par_toks params fc ++ rest2)).
     { destruct dt as [x|]; cbn [dt_toks].
-      - apply dtor_first_in; [exact Hdt|]. destruct params as [ps|]; cbn [par_toks app]; [right; eauto | left; exact Hend].
-      - destruct params as [ps|]; [destruct Hpar as ((x & Hx & _) & _); discriminate|]. cbn [par_toks app]. apply ends_decl_spec; exact Hend. }
-    assert (HA : after_spec (dt_toks dt ++ par_toks params fc ++ rest)).
+      - apply dtor_first_in; [exact Hdt|]. destruct params as [ps|]; cbn [par_toks app]; [right; eauto | left; exact Hmid].
+      - destruct params as [ps|]; [destruct Hpar as ((x & Hx & _) & _); discriminate|]. cbn [par_toks app]. apply ends_decl_spec; exact Hmid. }
+    assert (HA : after_spec (dt_toks dt ++ par_toks params fc ++ rest2)).
     { destruct dt as [x|]; cbn [dt_toks].
-      - apply (dtor_first_kind c); [exact Hdt|]. destruct params as [ps|]; cbn [par_toks app]; [right; eauto | left; exact Hend].
-      - destruct params as [ps|]; [destruct Hpar as ((x & Hx & _) & _); discriminate|]. cbn [par_toks app]. apply ends_decl_after; exact Hend. }
+      - apply (dtor_first_kind c); [exact Hdt|]. destruct params as [ps|]; cbn [par_toks app]; [right; eauto | left; exact Hmid].
+      - destruct params as [ps|]; [destruct Hpar as ((x & Hx & _) & _); discriminate|]. cbn [par_toks app]. apply ends_decl_after; exact Hmid. }
     destruct (spec_phase f c cst vol spec tm _ Hs Hok HR HA ltac:(lia)) as (otm & Hspec & Hcanon).
     rewrite Hspec. cbn [bind]. rewrite Hcanon. cbn [bind].
     change (ss_ctor (s_of cst vol spec otm)) with false. change (ss_dtor (s_of cst vol spec otm)) with (@None ustr). cbn [orb].
     (* the declarator *)
-    assert (Hdtor : p_declarator f (dt_toks dt ++ par_toks params fc ++ rest) = Ok (dt, par_toks params fc ++ rest)).
+    assert (Hdtor : p_declarator f (dt_toks dt ++ par_toks params fc ++ rest2) = Ok (dt, par_toks params fc ++ rest2)).
     { destruct dt as [x|]; cbn [dt_toks].
       - apply declarator_roundtrip; [lia | apply (wf_dtorb_ok c); exact Hdt |].
         destruct x as [ps0 [n0|] [f0|]]; cbn [follow]; auto.
         destruct params as [ps|]; [destruct Hpar as ((x & Hx & Hc) & _); inversion Hx; subst; discriminate|].
-        cbn [par_toks app]. split; [apply ends_decl_stops; exact Hend|].
-        destruct rest as [|t r]; [exact I|]. cbn [ends_decl] in Hend. ends_tac Hend; split; discriminate.
+        cbn [par_toks app]. split; [apply ends_decl_stops; exact Hmid|].
+        destruct rest2 as [|t r]; [exact I|]. cbn [mid] in Hmid. mid_tac Hmid; split; discriminate.
       - destruct params as [ps|]; [destruct Hpar as ((x & Hx & _) & _); discriminate|]. cbn [par_toks app].
-        destruct f as [|f']; [lia|]. cbn [p_declarator]. rewrite p_pointer_stop by (apply ends_decl_stops; exact Hend).
-        destruct rest as [|t r]; [reflexivity|]. cbn [ends_decl] in Hend. ends_tac Hend; reflexivity. }
+        destruct f as [|f']; [lia|]. cbn [p_declarator]. rewrite p_pointer_stop by (apply ends_decl_stops; exact Hmid).
+        destruct rest2 as [|t r]; [reflexivity|]. cbn [mid] in Hmid. mid_tac Hmid; reflexivity. }
     rewrite Hdtor. cbn [bind snd fst].
     assert (Htail : forall plist fconst,
-      bind (p_arrays f [] rest) (fun ar =>
+      bind (p_arrays f [] rest2) (fun ar =>
       bind (p_attribute f (ctor_attrs (s_of cst vol spec otm)) (snd ar)) (fun at0 =>
       let ts6 := snd at0 in
       let '(init, ts7) := if peek EQUALS ts6 then initializer (tl ts6) else (AVNone, ts6) in
       Ok (decl_of (s_of cst vol spec otm) tm dt plist (fst ar) (fst at0) init fconst, ts7)))
-      = Ok (Decl spec [] cst vol tm dt plist [] [] AVNone [] fconst, rest)).
-    { intros plist fconst. destruct f as [|f']; [lia|]. cbn [p_arrays p_attribute].
+      = Ok (Decl spec [] cst vol tm dt plist arr [] AVNone [] fconst, rest)).
+    { intros plist fconst.
       assert (Hpk : peek LBRACKET rest = false /\ peek PLUS rest = false /\ peek EQUALS rest = false).
       { destruct rest as [|t r]; [repeat split; reflexivity|]. cbn [ends_decl] in Hend. cbn [peek]. ends_tac Hend; repeat split; reflexivity. }
-      destruct Hpk as (H1 & H2 & H3). rewrite H1. cbn [bind snd fst]. rewrite H2. cbn [bind snd fst]. rewrite H3. reflexivity. }
+      destruct Hpk as (H1 & H2 & H3). subst rest2. rewrite (arrays_rt arr [] rest f Harr ltac:(lia) H1). cbn [bind snd fst app].
+      destruct f as [|f']; [lia|]. cbn [p_attribute]. rewrite H2. cbn [bind snd fst]. rewrite H3. reflexivity. }
     destruct params as [ps|]; cbn [par_toks].
     + (* a parameter list *)
       destruct Hpar as (_ & Hall & Hshape). cbn [app peek tok_of tk kind_eqb tl]. rewrite <- app_assoc. cbn [app].
@@ -526,8 +557,8 @@ Proof.
       assert (Hbody : (match ps with [] => [spec_tok (cp "void")] | _ => join_toks (map decl_toks ps) end) = join_toks (map decl_toks ps')).
       { subst ps'. destruct ps; reflexivity. }
       rewrite Hbody.
-      assert (Hps' : p_params f c (join_toks (map decl_toks ps') ++ tok_of RPAREN ")" :: (if fc then [tok_of TYPE_QUALIFIER "const"] else []) ++ rest) []
-                     = Ok (ps', (if fc then [tok_of TYPE_QUALIFIER "const"] else []) ++ rest)).
+      assert (Hps' : p_params f c (join_toks (map decl_toks ps') ++ tok_of RPAREN ")" :: (if fc then [tok_of TYPE_QUALIFIER "const"] else []) ++ rest2) []
+                     = Ok (ps', (if fc then [tok_of TYPE_QUALIFIER "const"] else []) ++ rest2)).
       { apply (IHp ps' [] _).
         - subst ps'. assert (Hl : 1 <= List.length spec) by (destruct spec; [contradiction | cbn [List.length]; lia]).
           destruct ps as [|p0 ps0]; [change (psum [void_decl]) with 6; cbn [map list_sum] in Hsz; lia | fold (psum (p0 :: ps0)) in Hsz; lia].
@@ -539,12 +570,12 @@ Proof.
       rewrite Hplist.
       destruct fc; cbn [app tk tv tok_of].
       * change (ueqb (cp "const") (cp "const")) with true. cbn [bind]. apply Htail.
-      * destruct rest as [|t r]; [cbn [bind]; apply Htail|]. cbn [ends_decl] in Hend.
-        ends_tac Hend; cbn [bind]; apply Htail.
+      * destruct rest2 as [|t r]; [cbn [bind]; apply Htail|]. cbn [mid] in Hmid.
+        mid_tac Hmid; cbn [bind]; apply Htail.
     + (* no parameter list *)
       subst fc. cbn [app]. 
-      assert (Hlp : peek LPAREN rest = false).
-      { destruct rest as [|t r]; [reflexivity|]. cbn [ends_decl] in Hend. cbn [peek]. ends_tac Hend; reflexivity. }
+      assert (Hlp : peek LPAREN rest2 = false).
+      { destruct rest2 as [|t r]; [reflexivity|]. cbn [mid] in Hmid. cbn [peek]. mid_tac Hmid; reflexivity. }
       rewrite Hlp. cbn [bind]. apply Htail.
   - (* a parameter list, after the opening parenthesis *)
     intros ps acc rest Hsz Hne Hall. destruct ps as [|p ps]; [contradiction|]. clear Hne.
